@@ -1061,7 +1061,56 @@ class Engine:
         lit = self.literal_field(t, attr)
         if lit is not None:
             return lit
+        cf = self.ctor_field(t, attr)
+        if cf is not None:
+            return cf
         return TOP
+
+    def ctor_field(self, cname, attr):
+        """Type of an instance field that the constructor copies from a parameter and nothing else assigns: the
+        classes handed to the constructor at the call sites of the package ("?" stands for call sites that pass
+        something that cannot be told; flag `ctorfield` marks the set as a lower bound)."""
+        c = self.model.classes.get(cname)
+        if c is None:
+            return None
+        key = ("ctor", cname, attr)
+        if key in self._field_cache:
+            return self._field_cache[key]
+        self._field_cache[key] = None
+        init = self.model.find_method(c, "__init__")
+        if init is None:
+            return None
+        pidx = None
+        for n in ast.walk(init.node):
+            if isinstance(n, ast.Assign) and any(norm(t_) == f"self.{attr}" for t_ in n.targets) \
+                    and isinstance(n.value, ast.Name) and n.value.id in init.params:
+                pidx = init.params.index(n.value.id) - 1
+        if pidx is None or pidx < 0:
+            return None
+        for k in self.model.mro(c):
+            for m in k.methods.values():
+                if m is init:
+                    continue
+                for n in ast.walk(m.node):
+                    if isinstance(n, (ast.Assign, ast.AugAssign)) and any(
+                            norm(t_) == f"self.{attr}" for t_ in (n.targets if isinstance(n, ast.Assign) else [n.target])):
+                        return None
+        types = set()
+        for f in self.model.all_funcs(True):
+            for n in ast.walk(f.node):
+                if isinstance(n, ast.Call) and isinstance(n.func, ast.Name) and n.func.id == cname and len(n.args) > pidx:
+                    a = n.args[pidx]
+                    if isinstance(a, ast.Call) and isinstance(a.func, ast.Name) and a.func.id in self.model.classes:
+                        types.add(a.func.id)
+                    elif norm(a) in ("sys.stdin", "sys.stdout", "sys.stderr"):
+                        types.add("TextIO")
+                    else:
+                        types.add("?")
+        if not (types - {"?"}):
+            return None
+        res = AV(types, flags={"ctorfield"})
+        self._field_cache[key] = res
+        return res
 
     def literal_field(self, cname, attr):
         """Type of an instance field all of whose assignments are literals of one host type."""
